@@ -1,8 +1,6 @@
 /- Driver stream `c06`: serde trees -> postcard/bincode bytes; Policies serde model. -/
 import FuelVerif.Basic.Loop
-import FuelVerif.Model.PoliciesSerde
-import FuelVerif.Model.SerdeCheck
-import FuelVerif.Gen.SerdeShapes
+import FuelVerif.Model.PoliciesWire
 namespace FuelVerif.Drv.C06
 open FuelVerif FuelVerif.Serde FuelVerif.PoliciesSerde FuelVerif.Gen.Policies FuelVerif.Gen.SerdeShapes
 
@@ -65,16 +63,6 @@ partial def showTree : Tree → String
 partial def showMany (xs : List Tree) : String := " ".intercalate (xs.map showTree)
 end
 
-/-- `postcard::from_bytes::<Policies>` / `bincode::deserialize::<Policies>`: the generated layout-dependent
-shape, then `visit_seq`'s own checks; trailing bytes ignored -/
-def policiesFromWire (dec : Shape → Bytes → Option (Tree × Bytes)) (bs : Bytes) : Option Policies :=
-  match dec (shapeOf .TPolicies) bs with
-  | some (t, _) =>
-    match deSeq t with
-    | .ok p => some p
-    | .error _ => none
-  | none => none
-
 def treesEq (a b : Tree) : Bool := showTree a == showTree b
 
 /-- `tree <Type> <sexpr> <postcard hex> <bincode hex>`: the recorded tree of a real value and the real
@@ -122,7 +110,7 @@ def handle : List String → String
     | none => "bad-op"
     | some bs =>
       match policiesFromWire pcDec bs with
-      | some p => s!"ok {showTree (ser p)}"
+      | some (p, _) => s!"ok {showTree (ser p)}"
       | none => "err"
   | _ => "bad-op"
 
